@@ -40,6 +40,23 @@ def is_int_const(v):
     return v[0] == 'c' and isinstance(v[1], int)
 
 
+class FnInfo(dict):
+    """callee description from the fact base, hashable so that function items can sit inside terms"""
+
+    def _key(self):
+        r = self.get('resolved') or {}
+        return (self.get('path'), r.get('path'), tuple(self.get('targs') or ()))
+
+    def __hash__(self):
+        return hash(self._key())
+
+    def __eq__(self, other):
+        return isinstance(other, dict) and FnInfo._key(self) == FnInfo._key(FnInfo(other))
+
+    def __ne__(self, other):
+        return not self.__eq__(other)
+
+
 class Frame:
     __slots__ = ('body', 'fid', 'bb', 'dest', 'ret_target', 'visits', 'call_site')
 
@@ -246,7 +263,7 @@ class Engine:
         t = crate.types[o['ty']]
         ts = t['s']
         if 'fn' in o:
-            return ('fn', o['fn'])
+            return ('fn', FnInfo(o['fn']))
         if 'int' in o:
             return C(int(o['int']), ts)
         if 'float' in o:
@@ -262,7 +279,7 @@ class Engine:
                 return ('ref', (('K', o['ptr_bytes'], (t['inner'], crate)), ()))
             return C(('b', o['ptr_bytes']), ts)
         if t.get('k') == 'closure':
-            return ('fn', {'path': t['def'], 'resolved': {'path': t['def']}})
+            return ('fn', FnInfo({'path': t['def'], 'resolved': {'path': t['def']}}))
         return C(None, ts)
 
     def operand(self, st, fr, o):
@@ -397,9 +414,48 @@ class Engine:
         return None
 
     # ------------------------------------------------------------ exploration
-    def run(self, body, args=None, start_bb=0, store=None):
+    def apply_fn(self, st, fr, f, args):
+        """apply a function value (fn item or closure) to argument values by a nested exploration of
+        its body; returns [(value, [(term, op, val)])] alternatives, or None if the body is unknown.
+        Effects inside the callee are not recorded (used for conversion-style callbacks)."""
+        body = None
+        env = None
+        if f[0] == 'fn':
+            body = self.facts.body(mir.callee_name(f[1])) or self.facts.body(f[1]['path'])
+            if body is None and mir.callee_name(f[1]) == '<T as std::convert::Into<U>>::into':
+                return None
+        elif f[0] == 'agg' and isinstance(f[1], str) and f[1].startswith('closure:'):
+            body = self.facts.body(f[1][len('closure:'):])
+            env = f
+        if body is None or self._apply_depth > 3:
+            return None
+        call_args = list(args)
+        store = dict(st.store)
+        if env is not None:
+            if body.local_ty(1).get('k') == 'ref':
+                h = ('H', 100000 + st.next_heap)
+                st.next_heap += 1
+                store[(h, ())] = env
+                call_args = [('ref', (h, ()))] + call_args
+            else:
+                call_args = [env] + call_args
+        sub = Engine(self.facts, inline_depth=self.inline_depth, max_paths=400, summaries=self.summaries,
+                     inline_filter=self.inline_filter, skip_tracing=self.skip_tracing)
+        sub._apply_depth = self._apply_depth + 1
+        try:
+            res = sub.run(body, args=call_args, store=store, fid_base=1000 * (self._apply_depth + 1) + st.next_fid)
+        except PathLimit:
+            return None
+        self.inlined |= {body.path} | sub.inlined
+        alts = [(p.value, [(c[0], c[1], c[2]) for c in p.conds]) for p in res if p.kind == 'return']
+        return alts or None
+
+    _apply_depth = 0
+
+    def run(self, body, args=None, start_bb=0, store=None, fid_base=0):
         """explore all paths of `body`; returns list of PathResult"""
         st = State()
+        st.next_fid = fid_base
         fr = Frame(body, st.next_fid, start_bb)
         st.next_fid += 1
         st.frames.append(fr)
@@ -563,7 +619,7 @@ class Engine:
         if name == '<T as std::convert::Into<U>>::into' and fn and len(fn.get('targs') or []) >= 2:
             tb = self.find_from_impl(fr.body.crate, fn['targs'][0], fn['targs'][1])
             if tb is not None:
-                fn = dict(fn)
+                fn = FnInfo(fn)
                 fn['resolved'] = {'path': tb.path}
                 fv = ('fn', fn)
                 name = tb.path
